@@ -60,8 +60,14 @@ def run_case(case, rec, cid):
 UNITS = [("d", 1), ("h", 24), ("mi", 1440), ("s", 86400)]
 
 
+ROUGH_ZERO = [{"mo": 1, "d": -30}, {"y": 1, "d": -365}, {"y": 1, "d": -360}, {"y": 1, "d": -366}, {"mo": 2, "d": -60}, {"y": -1, "mo": 12, "d": 5},
+              {"mo": -1, "d": 30}, {"mo": 1, "h": -720}, {"y": 1, "mo": -12}, {"mo": 12, "d": -360}]
+
+
 def rand_dur(rnd, frac=False, nominal=True):
     x = rnd.random()
+    if nominal and not frac and x > 0.96:      # non-empty durations whose ROUGH length (year = 365/360/366 d, month = 30 d) is zero
+        return dict(rnd.choice(ROUGH_ZERO))
     if x < 0.15:
         return {"w": rnd.randint(-60, 60)}
     d = {}
